@@ -296,6 +296,10 @@ def dimension_reduction(name, seed, heuristic, tol_dr=1e-4, eig_reg=None):
         tols = [c[2] for c in getattr(w, 'heuristic_calls', []) if c[0] == 'prepare']
         if tols != [tol_dr]:
             fails.append(('C14', 'stated_tolerance', 'the objective is anchored with tolerance(s) %r, the stated tolerance is %r' % (tols, tol_dr)))
+        objs = getattr(w, 'solve_objectives', [])
+        if len(objs) < 2 or objs[0] != 'Maximize' or any(o != 'Minimize' for o in objs[1:]):
+            fails.append(('C14', 'heuristic_objective_replaced', 'problems handed to the solver by one call with the heuristic %s: %s; expected the model (Maximize), then the '
+                          'weighted trace (Minimize) for every heuristic solve' % (heuristic, objs)))
         calls = getattr(w, 'solve_calls', [])
         if len(calls) >= 2 and any(c != calls[0] for c in calls[1:]):
             fails.append(('C14', 'same_solver_options', 'the solves of one call to PEP.solve receive different solver options: first %r, then %r' % (
@@ -370,6 +374,20 @@ def history(name, seed, hist):
             run_once(hn, hs)
         elif action == 'solve_crude':
             run_once(hn, hs, solver='SCS', eps=5e-2, max_iters=20)
+        elif action == 'fail_translation':
+            # the same program as model B plus one malformed hand-written constraint: the solve raises in the middle of the translation of that constraint
+            from PEPit import Expression
+            from PEPit.point import Point
+            p, h_ = models.build(name, seed)
+            a = Point.list_of_leaf_points[0]
+            b = Point.list_of_leaf_points[min(1, len(Point.list_of_leaf_points) - 1)]
+            bad = Expression(is_leaf=False, decomposition_dict={(a, b): 1.0, (b, a + b): 1.0})
+            p.list_of_constraints.insert(0, bad <= 1)
+            try:
+                solve(p)
+            except Exception:       # noqa
+                pass
+            keep.append((p, h_))
         elif action == 'fail':
             p, _ = models.build('T_unbounded', hs)
             solve(p)
@@ -614,6 +632,48 @@ def dual_tables(name, seed, resolve=False):
     return {'template': name, 'seed': seed, 'scenario': 'dual-tables'}, fails
 
 
+def dual_tables_direct(seed):
+    """unnamed functions created directly by their constructor AND through declare_function, in either order: the names of the class constraints (and so the
+    headers of the tables) of two different functions never coincide"""
+    import random
+    from PEPit import PEP
+    from PEPit.functions import ConvexFunction, SmoothStronglyConvexFunction
+    rng = random.Random(seed)
+    fails = []
+    from PEPit.primitive_steps import proximal_step
+    pep = PEP()
+    order = [['direct', 'declared', 'declared'], ['declared', 'direct', 'declared'], ['direct', 'direct', 'declared'], ['declared', 'declared', 'direct']][seed % 4]
+    specs = [(ConvexFunction, {}), (ConvexFunction, {}), (SmoothStronglyConvexFunction, dict(mu=.1, L=1.))]
+    funcs = [cls(**kw) if how == 'direct' else pep.declare_function(cls, **kw) for how, (cls, kw) in zip(order, specs)]
+    h_, g_, f_ = funcs
+    F = f_ + h_
+    xs = F.stationary_point()
+    x0 = pep.set_initial_point()
+    pep.set_initial_condition((x0 - xs) ** 2 <= 1)
+    x1 = x0 - f_.gradient(x0)                       # one step of the proximal gradient method on f + h
+    x2, _, _ = proximal_step(x1, h_, 1.)
+    g_.gradient(x0)                                 # a third function, sampled at two points, that the method does not use
+    g_.gradient(x2)
+    pep.set_performance_metric((x2 - xs) ** 2)
+    t = solve(pep)
+    names = []
+    headers = []
+    for f in funcs:
+        names.append({c.get_name() for c in f.list_of_class_constraints})
+        headers.append({str(tab.columns.name) for tab in f.get_class_constraints_duals().values()})
+        if not names[-1] or None in names[-1]:
+            fails.append(('C17', 'name.missing', 'a function has class constraints without a name (or none at all)'))
+    for i in range(len(funcs)):
+        for j in range(i):
+            if headers[i] & headers[j]:
+                fails.append(('C17', 'name.identifies_function', 'the dual tables of two different functions (%s, %s) carry the same header %r' % (
+                    order[j], order[i], sorted(headers[i] & headers[j])[0])))
+            both = names[i] & names[j]
+            if both:
+                fails.append(('C17', 'name.identifies_function', 'two different functions (%s, %s) both have a class constraint named %r' % (order[j], order[i], sorted(both)[0])))
+    return {'scenario': 'dual-tables-direct', 'seed': seed, 'order': order, 'tau': t}, fails
+
+
 # ------------------------------------------------------------------------------------------------ C15
 def partitions(seed):
     import random
@@ -639,6 +699,16 @@ def partitions(seed):
             fails.append(('C15', 'sum', 'the %d blocks of a point do not sum back to the point' % d))
         if d == 1 and prune_dict(blocks[0].decomposition_dict) != prune_dict(p.decomposition_dict):
             fails.append(('C15', 'identity', 'a one-block partition is not the identity'))
+    # points written with explicit null coefficients, decomposed, handed to an oracle (which prunes their dictionaries in place), and asked again
+    from PEPit.functions import ConvexFunction
+    f_ = pep.declare_function(ConvexFunction)
+    for z in (0 * leaves[1], 0.0 * leaves[2], (1 - 1) * leaves[0]):
+        first = [part.get_block(z, k) for k in range(d)]
+        f_.gradient(z)
+        if any(part.get_block(z, k) is not b_ for k, b_ in enumerate(first)):
+            fails.append(('C15', 'same_blocks', 'asking again for the blocks of a point, after it was handed to an oracle, returns other objects'))
+            break
+        decomposed.append(z)
     n_before = len(part.list_of_constraints)
     part.add_partition_constraints()
     new = part.list_of_constraints[n_before:]
